@@ -174,7 +174,9 @@ fn data_word_case(id: u8, active: u32, mode: Mode) -> Result<Option<String>, Str
 /// complementary lane mask comes first (the mask of the packet's own IHW governs its data words); 2 = as 1, and the
 /// IHW of the packet under test also has a reserved bit set (it is reported, and still is this packet's IHW); 3 = first
 /// packet of the link, but the data-position word before the word under test has itself an unrecognised identifier
-/// (0x29: reported, parsed as a data word) - the word under test is still a word after the start of the data.
+/// (0x29: reported, parsed as a data word) - the word under test is still a word after the start of the data; 4 = the
+/// packet under test is a continuation page: the page before announced the complementary mask and left its event open
+/// (TDT with packet_done = 0); the continuation page's own IHW governs its data words.
 fn data_word_case_h(id: u8, active: u32, mode: Mode, history: u8) -> Result<Option<String>, String> {
     let cfg = val::mode_cfg(mode);
     let mut st = val::CdpStepper::new(cfg);
@@ -193,6 +195,20 @@ fn data_word_case_h(id: u8, active: u32, mode: Mode, history: u8) -> Result<Opti
         // second packet far into a large file: offsets beyond 2^32 for the history-2 cases
         base = if history == 2 { 0x1_0000_1000 } else { 0x1000 };
     }
+    if history == 4 {
+        st.set_rdh(&r.encode(), 0)?;
+        let other = !active & 0x0FFF_FFFF;
+        for w in [
+            words::ihw(other),
+            words::Tdh { trigger_type: (r.trigger_type & 0xFFF) as u16, internal: true, no_data: false, continuation: false, bc: 0x40, orbit: r.orbit }.encode(),
+            words::data_word(0x20, [0; 9]),
+            words::Tdt::done(false),
+        ] {
+            let _ = st.word(&w)?;
+        }
+        r.pages_counter = 1;
+        base = 0x1000;
+    }
     st.set_rdh(&r.encode(), base)?;
     let mut ihw = words::ihw(active);
     if history == 2 {
@@ -200,7 +216,7 @@ fn data_word_case_h(id: u8, active: u32, mode: Mode, history: u8) -> Result<Opti
     }
     let lead = [
         ihw,
-        words::Tdh { trigger_type: (r.trigger_type & 0xFFF) as u16, internal: true, no_data: false, continuation: false, bc: if history == 1 || history == 2 { 0x40 } else { 0 }, orbit: r.orbit }.encode(),
+        words::Tdh { trigger_type: (r.trigger_type & 0xFFF) as u16, internal: true, no_data: false, continuation: history == 4, bc: if history == 1 || history == 2 || history == 4 { 0x40 } else { 0 }, orbit: r.orbit }.encode(),
         words::data_word(if history == 3 { 0x29 } else { 0x20 }, [0; 9]), // a first data word so that a following 0xF8 counts as data, not as a CDW
     ];
     for (i, l) in lead.iter().enumerate() {
@@ -380,7 +396,7 @@ pub fn run(tier: Tier) -> i32 {
     }
     // with a history: an earlier packet announced the complementary mask; the packet's own IHW sane / with a reserved bit
     let mut hcases = Vec::new();
-    for history in [1u8, 2, 3] {
+    for history in [1u8, 2, 3, 4] {
         for &id in &ids {
             for &m in &masks {
                 hcases.push((id, m, history));
@@ -393,7 +409,7 @@ pub fn run(tier: Tier) -> i32 {
         match r {
             Ok(None) => {}
             Ok(Some(d)) => rep.violation(Violation {
-                signature: format!("data-word:lanes-of-an-earlier-ihw:{}", match *h { 2 => "own-ihw-with-reserved-bit", 3 => "after-a-word-with-unrecognised-id", _ => "own-ihw-sane" }),
+                signature: format!("data-word:lanes-of-an-earlier-ihw:{}", match *h { 2 => "own-ihw-with-reserved-bit", 3 => "after-a-word-with-unrecognised-id", 4 => "ihw-of-a-continuation-page", _ => "own-ihw-sane" }),
                 description: format!("{d} [an earlier packet's IHW announced the complementary mask]"),
                 replay: json!({"kind": "data-history", "id": id, "active": m, "history": h}),
             }),
